@@ -33,7 +33,7 @@ var c04Codes = func() []c04Code {
 	return append(out, c04Code{17, ""}, c04Code{18, ""}, c04Code{99, ""}, c04Code{2147483647, ""}, c04Code{4294967295, ""})
 }()
 
-var c04Messages = []string{"plain message", "", "100% sure", "a%zzb%", "line1\r\nline2\ttab", `quote " and \ backslash`, "fiancée ≠ 😀", "1+1=2 & a=b; c", strings.TrimSpace(strings.Repeat("long ", 60))}
+var c04Messages = []string{"plain message", "", "100% sure", "a%zzb%", "line1\r\nline2\ttab", `quote " and \ backslash`, "fiancée ≠ 😀", "1+1=2 & a=b; c", "all ASCII punctuation !\"#$%&'()*+,-./:;<=>?@[\\]^_`{|}~ and é together", strings.TrimSpace(strings.Repeat("long ", 60))}
 
 func mustAny(m proto.Message) wire.Detail {
 	b, _ := proto.MarshalOptions{Deterministic: true}.Marshal(m)
